@@ -27,17 +27,23 @@ pub struct JitterMaker<'a> {
     pub reg: &'a dyn Registry,
     pub readings: Vec<u64>,
     pub rounds: u8,
+    /// pool written through the hook right after construction (value-directed start states)
+    pub init_pool: Option<u64>,
 }
 
 impl<'a> Maker for JitterMaker<'a> {
     fn make(&self) -> Box<dyn Gen> {
-        jitter_env::jitter_with(self.reg, self.readings.clone(), Some(self.rounds)).0
+        let mut g = jitter_env::jitter_with(self.reg, self.readings.clone(), Some(self.rounds)).0;
+        if let Some(p) = self.init_pool {
+            g.jitter().unwrap().set_pool(p);
+        }
+        g
     }
     fn info(&self) -> &TypeInfo {
         self.reg.jitter_info()
     }
     fn describe(&self) -> Value {
-        json!({"jitter": {"rounds": self.rounds, "readings_head": self.readings.iter().take(24).collect::<Vec<_>>(), "readings_len": self.readings.len(), "stream": "benign default (see jitter_env::benign_readings)"}})
+        json!({"jitter": {"rounds": self.rounds, "init_pool": self.init_pool.map(|p| format!("{:#x}", p)), "readings_head": self.readings.iter().take(24).collect::<Vec<_>>(), "readings_len": self.readings.len(), "stream": "benign default (see jitter_env::benign_readings)"}})
     }
 }
 
@@ -45,4 +51,31 @@ impl<'a> Maker for JitterMaker<'a> {
 pub fn standard_seeds(ty: &dyn GenType, verif_seed: u64) -> Vec<Vec<u8>> {
     let len = ty.info().seed_len;
     vec![(0..len).map(|i| (i + 1) as u8).collect(), crate::alphabet::bg_bytes(verif_seed, 0x5EED5 + len as u64, len), vec![0u8; len]]
+}
+
+/// A generator that has already produced `skip_bytes` bytes (deep stream positions: many blocks in).
+pub struct DeepMaker {
+    pub ty: &'static dyn GenType,
+    pub seed: Vec<u8>,
+    pub skip_bytes: usize,
+}
+
+impl Maker for DeepMaker {
+    fn make(&self) -> Box<dyn Gen> {
+        let mut g = self.ty.from_seed(&self.seed);
+        let mut buf = vec![0u8; 1 << 16];
+        let mut left = self.skip_bytes;
+        while left > 0 {
+            let n = left.min(buf.len());
+            g.fill_bytes(&mut buf[..n]);
+            left -= n;
+        }
+        g
+    }
+    fn info(&self) -> &TypeInfo {
+        self.ty.info()
+    }
+    fn describe(&self) -> Value {
+        json!({"from_seed": hex(&self.seed), "then_skip_bytes": self.skip_bytes})
+    }
 }
